@@ -164,12 +164,14 @@ impl Builder {
 
     pub fn mute(&mut self, density: f64, len_factor: (f64, f64), partial: f64, max_round: u64) {
         let mut rounds = Vec::new();
-        let pattern = self.r.below(4);
+        let pattern = self.r.below(6);
         for r in 1..=max_round {
             let on = match pattern {
                 0 => self.r.chance(density),
                 1 => r % 3 == 1,                      // 1,4,7,..: certified blocks with gaps
                 2 => r % 3 == 1 && r > 3,             // the same but after a normal start
+                4 => r % 5 == 2 || r % 5 == 3,        // two slow leaders in a row (late QC, then late block)
+                5 => r % 4 == 2 || (r % 8 == 3),      // singles and occasional pairs
                 _ => self.r.chance(density) || (r > 2 && r % 5 == 0),
             };
             if on {
@@ -281,7 +283,7 @@ pub fn chaos(profile: &str, seed: u64, thorough: bool) -> Scenario {
             forge_qc_from_tapped: lvl(&mut b.r),
             replay: lvl(&mut b.r),
             silent: *b.r.pick(&[0.0, 0.1, 0.3]),
-            low_timeouts: lvl(&mut b.r),
+            low_timeouts: *b.r.pick(&[0.0, 0.5, 1.0, 1.0]),
             ack: *b.r.pick(&[0.0, 0.5, 1.0]),
         };
         let step = b.t_us / 2;
@@ -301,7 +303,8 @@ pub fn chaos(profile: &str, seed: u64, thorough: bool) -> Scenario {
     if force_mute || b.r.chance(0.6) {
         let density = *b.r.pick(&[0.1, 0.2, 0.35]);
         let partial = *b.r.pick(&[0.0, 0.3, 0.6]);
-        b.mute(density, (1.1, 2.5), partial, 400);
+        let span = if b.r.chance(0.5) { (1.02, 1.4) } else { (1.1, 2.5) };
+        b.mute(density, span, partial, 400);
     }
     if b.r.chance(0.4) {
         let k = b.r.range(1, 3) as usize;
@@ -692,7 +695,7 @@ pub fn puppet(profile: &str, seed: u64, thorough: bool) -> Scenario {
     b.sc.net.connect_lat_us = (50, 200);
     b.sc.duration_us = 0;
     let steps = if thorough { b.r.range(150, 500) } else { b.r.range(80, 220) } as usize;
-    let heavy_invalid = matches!(profile, "C04" | "C20");
+    let heavy_invalid = matches!(profile, "C04" | "C20" | "C10" | "C19");
     let cfg = crate::puppet::PuppetCfg {
         real,
         steps,
